@@ -176,6 +176,9 @@ def validate(module, cfg, trace_file, tag, timeout=1200):
 # ------------------------------------------------------------------------------------------------
 # harness runs
 
+HANGS = []     # run ids whose execution hung inside the code under test (filled by run_scripts)
+
+
 def run_scripts(scripts, projs, tag, shards=NPROC, probe=1, timeout=1800):
     """Run scripts through qv in `shards` parallel processes. Returns list of (shard_dir, first_run, n)."""
     d = workdir("run_" + tag)
@@ -197,6 +200,11 @@ def run_scripts(scripts, projs, tag, shards=NPROC, probe=1, timeout=1800):
         out = os.path.join(d, "s%02d" % k)
         rc, o = sh([QV, "run", sf, out, "--proj", ",".join(projs), "--probe", str(probe),
                     "--first-run", str(first)], timeout, check=False)
+        if rc == 3 and os.path.exists(os.path.join(out, "hang.json")):
+            # a call into the code under test never returned: a finding, recorded with its script
+            h = json.load(open(os.path.join(out, "hang.json")))
+            HANGS.append(h["run"])
+            return (out, first, n)
         if rc != 0:
             raise ToolError("qv failed on shard %d (rc=%d): %s" % (k, rc, o[-2000:]))
         return (out, first, n)
